@@ -279,7 +279,7 @@ Theorem sched_step_safe : forall s a, SInv s ->
   SInv (snd (sched_step s a)) /\ fst (sched_step s a) <> OCrash.
 Proof.
   intros s a HI.
-  destruct a as [c so sto eno fl|g|g| | |i|i v| |n]; cbn [sched_step].
+  destruct a as [c so sto eno fl|g|g| | |i|i v| |n|]; cbn [sched_step].
   - (* start: a new generator object, nothing runs *)
     cbn [fst snd]. split; [|discriminate]. apply start_inv; exact HI.
   - (* advance *)
@@ -332,6 +332,11 @@ Proof.
         -- destruct (Hl x Hx) as [A|[A|A]]; [discriminate|injection A as <-; exact Eh|exact A].
         -- apply in_remove in Hx. destruct Hx as [Hx Hn]. destruct (Hl x Hx) as [A|[A|A]]; [discriminate|congruence|exact A].
     + unfold SInv, SInvX. cbn [sc_users sc_gens sc_ctx sc_open sc_cache]. repeat split; assumption.
+  - (* the data file cannot be opened *)
+    destruct (sc_cache s) as [c|] eqn:Ec; [|cbn [fst snd]; split; [exact HI|discriminate]].
+    destruct (acquire_inv s 0 None HI) as (I1 & C1 & O1 & G1 & X1 & D1 & L1).
+    destruct (acquire s) as [m s1]. cbn [fst snd] in *. rewrite (mem_in _ _ O1). cbn [fst snd]. split; [|discriminate].
+    apply release_inv. exact I1.
 Qed.
 
 Theorem sched_run_safe : forall acts s, SInv s ->
